@@ -4,8 +4,11 @@ package main
 // granularity and naming as the translation's heaps.
 
 import (
+	"fmt"
 	"go/types"
+	"os"
 	"sort"
+	"strconv"
 	"strings"
 
 	"golang.org/x/tools/go/ssa"
@@ -247,11 +250,42 @@ func (e *Engine) callMod(f *ssa.Function, cc *ssa.CallCommon) (exist []string, f
 			}
 			return
 		}
+		// a call through one of f's own function-typed parameters: "whatever that argument may write"
+		if pr, ok := cc.Value.(*ssa.Parameter); ok {
+			for i, q := range f.Params {
+				if q == pr {
+					return []string{fmt.Sprintf("cb:%d", i)}, fresh
+				}
+			}
+		}
+		// a function type that mentions an unexported type of this module can only be implemented inside
+		// the module: union over every function and closure of the module with that signature
+		if sig, ok := types.Unalias(cc.Value.Type()).Underlying().(*types.Signature); ok && e.sigClosed(sig) {
+			for _, g := range e.fnsWithSig(sig) {
+				mi := e.modInfo(g)
+				for n := range mi.Exist {
+					if strings.HasPrefix(n, "cb:") {
+						n = "*"
+					}
+					exist = append(exist, n)
+				}
+				for n := range mi.Fresh {
+					fresh = append(fresh, n)
+				}
+			}
+			return
+		}
 		return []string{"*"}, fresh
 	}
 	if e.inRepo(callee) {
 		mi := e.modInfo(callee)
 		for n := range mi.Exist {
+			if strings.HasPrefix(n, "cb:") {
+				ex2, fr2 := e.resolveCb(f, cc, n)
+				exist = append(exist, ex2...)
+				fresh = append(fresh, fr2...)
+				continue
+			}
 			exist = append(exist, n)
 		}
 		for n := range mi.Fresh {
@@ -332,6 +366,167 @@ func (e *Engine) externMod(callee *ssa.Function, cc *ssa.CallCommon) []string {
 	return r
 }
 
+// resolveCb: the callee may write what its idx-th argument (a function value) writes; at this call site
+// that argument is a known function/closure, one of f's own parameters (token passed up), or unknown.
+func (e *Engine) resolveCb(f *ssa.Function, cc *ssa.CallCommon, token string) (exist, fresh []string) {
+	idx, err := strconv.Atoi(strings.TrimPrefix(token, "cb:"))
+	if err != nil || idx >= len(cc.Args) {
+		return []string{"*"}, nil
+	}
+	var g *ssa.Function
+	av := cc.Args[idx]
+	for {
+		if ct, ok := av.(*ssa.ChangeType); ok {
+			av = ct.X
+			continue
+		}
+		break
+	}
+	switch v := av.(type) {
+	case *ssa.Parameter:
+		if f != nil {
+			for i, q := range f.Params {
+				if q == v {
+					return []string{fmt.Sprintf("cb:%d", i)}, nil
+				}
+			}
+		}
+		return []string{"*"}, nil
+	case *ssa.Function:
+		g = v
+	case *ssa.MakeClosure:
+		g = v.Fn.(*ssa.Function)
+	case *ssa.Const:
+		if v.IsNil() {
+			return nil, nil
+		}
+	}
+	if g == nil || !e.inRepo(g) {
+		return []string{"*"}, nil
+	}
+	mi := e.modInfo(g)
+	for n := range mi.Exist {
+		if strings.HasPrefix(n, "cb:") {
+			n = "*"
+		}
+		exist = append(exist, n)
+	}
+	for n := range mi.Fresh {
+		fresh = append(fresh, n)
+	}
+	return
+}
+
+// modAtCall: MOD of callee at a given call site of f, with callback tokens resolved (never contains tokens)
+func (e *Engine) modAtCall(f *ssa.Function, cc *ssa.CallCommon, callee *ssa.Function) *ModInfo {
+	mi := e.modInfo(callee)
+	has := false
+	for n := range mi.Exist {
+		if strings.HasPrefix(n, "cb:") {
+			has = true
+		}
+	}
+	if !has {
+		return mi
+	}
+	r := &ModInfo{Exist: map[string]bool{}, Fresh: map[string]bool{}}
+	for n := range mi.Fresh {
+		r.Fresh[n] = true
+	}
+	for n := range mi.Exist {
+		if !strings.HasPrefix(n, "cb:") {
+			r.Exist[n] = true
+			continue
+		}
+		if cc == nil {
+			r.Exist["*"] = true
+			continue
+		}
+		ex, fr := e.resolveCb(nil, cc, n)
+		for _, x := range ex {
+			if strings.HasPrefix(x, "cb:") {
+				x = "*"
+			}
+			r.Exist[x] = true
+		}
+		for _, x := range fr {
+			r.Fresh[x] = true
+		}
+	}
+	return r
+}
+
+// closed: callback tokens read as "anything" (for consumers that have no call site to resolve them at)
+func (mi *ModInfo) closed() *ModInfo {
+	has := false
+	for n := range mi.Exist {
+		if strings.HasPrefix(n, "cb:") {
+			has = true
+		}
+	}
+	if !has {
+		return mi
+	}
+	r := &ModInfo{Exist: map[string]bool{"*": true}, Fresh: map[string]bool{}}
+	for n := range mi.Exist {
+		if !strings.HasPrefix(n, "cb:") {
+			r.Exist[n] = true
+		}
+	}
+	for n := range mi.Fresh {
+		r.Fresh[n] = true
+	}
+	return r
+}
+
+func (e *Engine) sigClosed(sig *types.Signature) bool {
+	closed := false
+	var visit func(t types.Type, depth int)
+	visit = func(t types.Type, depth int) {
+		if depth > 4 || closed {
+			return
+		}
+		switch u := types.Unalias(t).(type) {
+		case *types.Named:
+			if o := u.Obj(); o != nil && o.Pkg() != nil && !o.Exported() &&
+				(o.Pkg().Path() == e.ModPath || strings.HasPrefix(o.Pkg().Path(), e.ModPath+"/")) {
+				closed = true
+			}
+		case *types.Pointer:
+			visit(u.Elem(), depth+1)
+		case *types.Slice:
+			visit(u.Elem(), depth+1)
+		case *types.Map:
+			visit(u.Key(), depth+1)
+			visit(u.Elem(), depth+1)
+		}
+	}
+	for i := 0; i < sig.Params().Len(); i++ {
+		visit(sig.Params().At(i).Type(), 0)
+	}
+	for i := 0; i < sig.Results().Len(); i++ {
+		visit(sig.Results().At(i).Type(), 0)
+	}
+	return closed
+}
+
+func (e *Engine) fnsWithSig(sig *types.Signature) []*ssa.Function {
+	key := types.TypeString(sig, nil)
+	e.mu.Lock()
+	if e.sigIndex == nil {
+		e.sigIndex = map[string][]*ssa.Function{}
+		for g := range e.allFuncs {
+			if e.inRepo(g) && len(g.Blocks) > 0 && g.Signature.Recv() == nil {
+				k := types.TypeString(types.NewSignatureType(nil, nil, nil, g.Signature.Params(), g.Signature.Results(), g.Signature.Variadic()), nil)
+				e.sigIndex[k] = append(e.sigIndex[k], g)
+			}
+		}
+	}
+	r := e.sigIndex[key]
+	e.mu.Unlock()
+	return r
+}
+
 func (e *Engine) callbackMod(cc *ssa.CallCommon, idx int) []string {
 	if idx >= len(cc.Args) {
 		return nil
@@ -360,18 +555,23 @@ func keys(m map[string]bool) []string {
 func (e *Engine) modOfInstr(f *ssa.Function, ins ssa.Instruction) []string {
 	ex, fr := e.instrMod(ins)
 	r := append(ex, fr...)
+	var cc *ssa.CallCommon
 	switch x := ins.(type) {
 	case *ssa.Call:
-		a, b := e.callMod(f, &x.Call)
-		r = append(r, a...)
-		r = append(r, b...)
+		cc = &x.Call
 	case *ssa.Go:
-		a, b := e.callMod(f, &x.Call)
-		r = append(r, a...)
-		r = append(r, b...)
+		cc = &x.Call
 	case *ssa.Defer:
-		a, b := e.callMod(f, &x.Call)
-		r = append(r, a...)
+		cc = &x.Call
+	}
+	if cc != nil {
+		a, b := e.callMod(f, cc)
+		for _, n := range a {
+			if strings.HasPrefix(n, "cb:") {
+				n = "*" // a call through one of f's own parameters: unknown inside f
+			}
+			r = append(r, n)
+		}
 		r = append(r, b...)
 	}
 	return r
@@ -438,8 +638,9 @@ func (e *Engine) computeModsPass() {
 						switch {
 						case !pureSpec || unprovenFrame[n] || (n == "*" && len(unprovenFrame) > 0):
 							add(mi.Exist, n)
-						case n == "*":
+						case n == "*" || strings.HasPrefix(n, "cb:"):
 							// pure with every frame obligation proved: nothing pre-existing is written
+							// (callbacks of a function declared pure are assumed pure: stated in the contract)
 						default:
 							add(mi.Fresh, n)
 						}
@@ -465,7 +666,7 @@ func (e *Engine) modInfo(fn *ssa.Function) *ModInfo {
 
 // modOfFunc: union view used for whole-heap havoc at call sites
 func (e *Engine) modOfFunc(fn *ssa.Function) map[string]bool {
-	mi := e.modInfo(fn)
+	mi := e.modInfo(fn).closed()
 	r := map[string]bool{}
 	for n := range mi.Exist {
 		r[n] = true
@@ -497,4 +698,34 @@ func (e *Engine) rawModInfo(fn *ssa.Function) *ModInfo {
 		return mi
 	}
 	return &ModInfo{Exist: map[string]bool{"*": true}, Fresh: map[string]bool{}}
+}
+
+func init() {
+	debugHooks["mod"] = func(e *Engine) {
+		for _, k := range os.Args[3:] {
+			fn := e.byKey[k]
+			if fn == nil {
+				fmt.Println(k, "not found")
+				continue
+			}
+			mi := e.modInfo(fn)
+			ex := keys(mi.Exist)
+			if len(ex) > 12 {
+				ex = append(ex[:12], fmt.Sprintf("... (%d)", len(mi.Exist)))
+			}
+			fmt.Printf("%s\n  exist: %v\n  fresh: %d classes\n", k, ex, len(mi.Fresh))
+			for _, b := range fn.Blocks {
+				for _, ins := range b.Instrs {
+					if ci, ok := ins.(ssa.CallInstruction); ok {
+						a, _ := e.callMod(fn, ci.Common())
+						for _, n := range a {
+							if n == "*" || strings.HasPrefix(n, "cb:") {
+								fmt.Printf("    %s at %v: %s\n", n, e.Fset.Position(ins.Pos()), ins.String())
+							}
+						}
+					}
+				}
+			}
+		}
+	}
 }
